@@ -283,10 +283,15 @@ impl VrlValueArithmetic for Value {
     fn eq_lossy(&self, rhs: &Self) -> bool {
         use Value::{Float, Integer};
 
-        match self {
-            Integer(lhv) => rhs.try_into_f64().is_ok_and(|rhv| *lhv as f64 == rhv),
+        match (self, rhs) {
+            // Two integers are compared exactly: converting both to `f64` makes distinct
+            // integers above 2^53 equal (`9007199254740993 == 9007199254740992`), which also
+            // contradicts `>`/`<`, which compare integers exactly.
+            (Integer(lhv), Integer(rhv)) => lhv == rhv,
 
-            Float(lhv) => rhs.try_into_f64().is_ok_and(|rhv| lhv.into_inner() == rhv),
+            (Integer(lhv), _) => rhs.try_into_f64().is_ok_and(|rhv| *lhv as f64 == rhv),
+
+            (Float(lhv), _) => rhs.try_into_f64().is_ok_and(|rhv| lhv.into_inner() == rhv),
 
             _ => self == rhs,
         }
